@@ -917,3 +917,306 @@ Proof.
   intros Hsp Hff Hc w. unfold w. rewrite <- (acked_is_pruned_plus_reading c fids dm k0 (map snd s) Hsp Hff Hc).
   unfold run. rewrite acked_run_log; auto. apply sinv_init.
 Qed.
+
+(* ================================================================== C15 *)
+(* ---------- when does a write rotate ---------- *)
+Lemma rotate_rot c w t2 t3 t4 : snd (do_rotate c w t2 t3 t4) = rotate_due c w t2.
+Proof. unfold do_rotate. destruct (rotate_due c w t2); [|reflexivity]. destruct (tsOnly c); [destruct (fs_rename _ _ _)|]; reflexivity. Qed.
+Lemma write_rot c w id size t1 t2 t3 t4 t5 flt : snd (do_write c w id size t1 t2 t3 t4 t5 flt) = rotate_due c (do_open c w t1) t2.
+Proof.
+  unfold do_write. rewrite <- (rotate_rot c (do_open c w t1) t2 t3 t4).
+  destruct (do_rotate c (do_open c w t1) t2 t3 t4) as [[w2 ok] rot]. cbn [snd].
+  destruct ok; cbn [negb]; [|reflexivity]. destruct (first_fails flt); cbn [negb]; [destruct (second_fails flt)|]; reflexivity.
+Qed.
+Lemma rotate_due_iff c w t2 :
+  rotate_due c w t2 = true <-> (0 < maxBytes c /\ maxBytes c <= bw w) \/ (0 < maxDur c /\ maxDur c < t2 - lc w).
+Proof. unfold rotate_due. lia. Qed.
+Lemma do_open_bw_lc c w t :
+  bw (do_open c w t) = match fopen w with Some _ => bw w | None => 0 end /\
+  lc (do_open c w t) = match fopen w with Some _ => lc w | None => t end /\
+  since_open (do_open c w t) = match fopen w with Some _ => since_open w | None => 0 end.
+Proof. unfold do_open. destruct (fopen w); [auto|]. destruct (lookup_name _ _); auto. Qed.
+
+(* a Process call first rotates exactly when the file the sink has open (after opening one if none was) already holds
+   MaxBytes (MaxBytes > 0) or is older than MaxDuration (MaxDuration > 0) *)
+Theorem rotate_iff c w id size t1 t2 t3 t4 t5 flt : special c = false ->
+  let b := match fopen w with Some _ => bw w | None => 0 end in       (* BytesWritten when rotate() looks at it *)
+  let l := match fopen w with Some _ => lc w | None => t1 end in      (* LastCreated when rotate() looks at it *)
+  step_rot c w (Write id size t1 t2 t3 t4 t5 flt) = true <->
+  (0 < maxBytes c /\ maxBytes c <= b) \/ (0 < maxDur c /\ maxDur c < t2 - l).
+Proof.
+  intros Hsp b l. unfold step_rot. cbn [step3]. rewrite Hsp.
+  pose proof (write_rot c w id size t1 t2 t3 t4 t5 flt) as Hr.
+  destruct (do_write c w id size t1 t2 t3 t4 t5 flt) as [[w' ok] rot]. cbn [snd] in *. rewrite Hr, rotate_due_iff.
+  destruct (do_open_bw_lc c w t1) as [E1 [E2 _]]. rewrite E1, E2. reflexivity.
+Qed.
+Theorem no_limits_never_rotates c w o : maxBytes c <= 0 -> maxDur c <= 0 -> step_rot c w o = false.
+Proof.
+  intros Hb Hd. unfold step_rot. destruct o as [id size t1 t2 t3 t4 t5 flt|t|t|t]; cbn [step3].
+  - destruct (special c); [reflexivity|]. pose proof (write_rot c w id size t1 t2 t3 t4 t5 flt) as Hr.
+    destruct (do_write c w id size t1 t2 t3 t4 t5 flt) as [[w' ok] rot]. cbn [snd] in *. rewrite Hr. unfold rotate_due. lia.
+  - destruct (special c); reflexivity.
+  - destruct (active_file w); [destruct (fs_rename _ _ _)|]; reflexivity.
+  - reflexivity.
+Qed.
+
+(* ---------- BytesWritten = bytes appended through the current descriptor since it was opened ---------- *)
+Lemma remove_all_fields v : forall w, let w' := remove_all v w in
+  bw w' = bw w /\ lc w' = lc w /\ since_open w' = since_open w /\ fopen w' = fopen w /\ dirmode w' = dirmode w /\ next_ino w' = next_ino w.
+Proof.
+  induction v as [|a r IH]; intros w; cbn [remove_all]; [cbn zeta; auto 10|].
+  specialize (IH (set_pruned w (fs_remove (NStamp a) (files w)) (pruned w ++ data_of (NStamp a) (files w)))). cbn zeta in *. projs. exact IH.
+Qed.
+Lemma prune_n_fields j c w : let w' := prune_n j c w in
+  bw w' = bw w /\ lc w' = lc w /\ since_open w' = since_open w /\ fopen w' = fopen w /\ dirmode w' = dirmode w /\ next_ino w' = next_ino w.
+Proof. unfold prune_n. destruct (special c || N.eqb (maxFiles c) 0); [cbn zeta; auto 10|]. apply remove_all_fields. Qed.
+
+Definition bw_ok (w : world) : Prop := bw w = since_open w.
+Lemma bw_ok_open c w t : bw_ok w -> bw_ok (do_open c w t).
+Proof. unfold bw_ok. intros H. destruct (do_open_bw_lc c w t) as [E1 [_ E3]]. rewrite E1, E3. destruct (fopen w); auto. Qed.
+Lemma bw_ok_rotate c w t2 t3 t4 : bw_ok w -> bw_ok (fst (fst (do_rotate c w t2 t3 t4))).
+Proof.
+  intros H. unfold do_rotate. destruct (rotate_due c w t2); [|exact H]. destruct (tsOnly c).
+  - destruct (fs_rename _ _ _); cbn [fst]; [|exact H]. apply bw_ok_open. unfold bw_ok, prune.
+    destruct (prune_n_fields (stale_count c (set_files (set_clock (set_fopen (set_clock w t2) None) t3) l)) c (set_files (set_clock (set_fopen (set_clock w t2) None) t3) l)) as [E1 [_ [E3 _]]].
+    cbn zeta in *. rewrite E1, E3. exact H.
+  - cbn [fst]. apply bw_ok_open. unfold bw_ok, prune.
+    destruct (prune_n_fields (stale_count c (set_fopen (set_clock w t2) None)) c (set_fopen (set_clock w t2) None)) as [E1 [_ [E3 _]]].
+    cbn zeta in *. rewrite E1, E3. exact H.
+Qed.
+Lemma bw_ok_step c w o : special c = false -> fault_free_op o -> bw_ok w -> bw_ok (step c w o).
+Proof.
+  intros Hsp Hff H. unfold step. destruct o as [id size t1 t2 t3 t4 t5 flt|t|t|t]; cbn [step3]; rewrite ?Hsp.
+  - cbn [fault_free_op] in Hff. subst flt. unfold do_write.
+    pose proof (bw_ok_rotate c _ t2 t3 t4 (bw_ok_open c w t1 H)) as Hr.
+    destruct (do_rotate c (do_open c w t1) t2 t3 t4) as [[w2 ok] rot]. cbn [fst] in *.
+    destruct ok; cbn [negb nofault first_fails fst]; [|exact Hr].
+    unfold bw_ok, append_chunk in *. destruct (fopen w2) as [[i nm]|]; projs; [lia|exact Hr].
+  - cbn [fst]. rewrite do_reopen_eq. apply bw_ok_open. exact H.
+  - destruct (active_file w); [destruct (fs_rename _ _ _)|]; exact H.
+  - exact H.
+Qed.
+Theorem bytes_written_is_since_open c fids dm k0 ops : special c = false -> fault_free ops ->
+  bw (run c fids dm k0 ops) = since_open (run c fids dm k0 ops).
+Proof.
+  intros Hsp Hff. unfold run, run_from. assert (H0 : bw_ok (w_init fids dm k0)) by reflexivity. revert H0. generalize (w_init fids dm k0).
+  induction Hff as [|o r Ho Hr IH]; intros w Hw; cbn [fold_left]; [exact Hw|]. apply IH. apply bw_ok_step; assumption.
+Qed.
+
+(* ---------- stamps increase with the order of creation ---------- *)
+Lemma sorted2_cases {A B1 B2} (R1 : B1 -> B1 -> Prop) (R2 : B2 -> B2 -> Prop) (g1 : A -> B1) (g2 : A -> B2) l x y :
+  StronglySorted R1 (map g1 l) -> StronglySorted R2 (map g2 l) -> In x l -> In y l ->
+  x = y \/ (R1 (g1 x) (g1 y) /\ R2 (g2 x) (g2 y)) \/ (R1 (g1 y) (g1 x) /\ R2 (g2 y) (g2 x)).
+Proof.
+  induction l as [|a t IH]; cbn [map]; intros S1 S2 Hx Hy; [contradiction|].
+  inversion S1 as [|? ? T1 A1]; inversion S2 as [|? ? T2 A2]; subst. rewrite Forall_forall in A1, A2.
+  destruct Hx as [<-|Hx], Hy as [<-|Hy].
+  - left. reflexivity.
+  - right. left. split; [apply A1|apply A2]; apply in_map; exact Hy.
+  - right. right. split; [apply A1|apply A2]; apply in_map; exact Hx.
+  - apply IH; assumption.
+Qed.
+(* of two stamped files the one created later (larger inode number) carries the larger stamp *)
+Theorem stamps_increase_with_creation c w f g a b : sinv c w ->
+  In f (files w) -> In g (files w) -> (f_ino f < f_ino g)%N -> f_name f = NStamp a -> f_name g = NStamp b -> a < b.
+Proof.
+  intros Hi Hf Hg Hlt Ea Eb.
+  destruct (sorted2_cases N.lt nlt f_ino f_name (files w) f g (i_inos _ _ Hi) (i_sorted _ _ Hi) Hf Hg) as [E|[[H1 H2]|[H1 H2]]].
+  - subst g. lia.
+  - rewrite Ea, Eb in H2. exact H2.
+  - lia.
+Qed.
+
+(* ---------- modes, directory, the name the sink opened, foreign files ---------- *)
+Definition modes_ok (c : cfg) (fs : list file) : Prop := forall f, In f fs -> is_foreign (f_name f) = false -> f_mode f = eff_mode c.
+Definition dir_expected (dm : option N) : N := match dm with Some m => m | None => dirMode end.
+Definition dir_ok (dm : option N) (w : world) : Prop :=
+  match dirmode w with
+  | None => dm = None /\ fopen w = None /\ sink_files (files w) = []
+  | Some m => m = dir_expected dm
+  end.
+Definition name_ok (c : cfg) (w : world) : Prop := forall i nm, fopen w = Some (i, nm) -> nm = newFileName c (lc w).
+Record ginv (c : cfg) (dm : option N) (F0 : list file) (w : world) : Prop := {
+  g_modes : modes_ok c (files w);
+  g_dir : dir_ok dm w;
+  g_name : name_ok c w;
+  g_foreign : foreign_files (files w) = F0;
+}.
+
+Lemma foreign_files_app a b : foreign_files (a ++ b) = foreign_files a ++ foreign_files b.
+Proof. apply filter_app. Qed.
+Lemma sink_files_app a b : sink_files (a ++ b) = sink_files a ++ sink_files b.
+Proof. apply filter_app. Qed.
+Lemma foreign_map g fs : (forall f, is_foreign (f_name f) = true -> g f = f) -> (forall f, is_foreign (f_name (g f)) = is_foreign (f_name f)) ->
+  foreign_files (map g fs) = foreign_files fs.
+Proof.
+  intros H1 H2. unfold foreign_files. induction fs as [|f t IH]; [reflexivity|]. cbn [map filter]. rewrite H2.
+  destruct (is_foreign (f_name f)) eqn:E; [rewrite (H1 f E), IH; reflexivity|exact IH].
+Qed.
+Lemma foreign_remove n fs : is_foreign n = false -> foreign_files (fs_remove n fs) = foreign_files fs.
+Proof.
+  intros Hn. unfold foreign_files, fs_remove. induction fs as [|f t IH]; [reflexivity|]. cbn [filter].
+  destruct (name_eqb (f_name f) n) eqn:E; cbn [negb].
+  - apply name_eqb_eq in E. rewrite E, Hn. exact IH.
+  - cbn [filter]. destruct (is_foreign (f_name f)); [rewrite IH; reflexivity|exact IH].
+Qed.
+Lemma newFileName_not_foreign c t : is_foreign (newFileName c t) = false.
+Proof. destruct (newFileName_cases c t) as [[_ E]|[_ E]]; rewrite E; reflexivity. Qed.
+
+Lemma fs_rename_props o n fs fs' : fs_rename o n fs = Some fs' -> is_foreign o = false -> is_foreign n = false ->
+  foreign_files fs' = foreign_files fs /\
+  (forall g, In g fs' -> exists f, In f fs /\ f_mode g = f_mode f /\ (g = f \/ (f_name f = o /\ f_name g = n))) /\
+  (sink_files fs = [] -> sink_files fs' = []).
+Proof.
+  unfold fs_rename. intros H Ho Hn. destruct (has_name o fs); [|discriminate]. destruct (name_eqb o n).
+  { inversion H; subst. conj; auto. intros g Hg. exists g. auto. }
+  inversion H; subst fs'. clear H. conj.
+  - rewrite foreign_map; [apply foreign_remove; exact Hn| |].
+    + intros f Hf. destruct (name_eqb (f_name f) o) eqn:E; [|reflexivity]. apply name_eqb_eq in E. rewrite E in Hf. congruence.
+    + intros f. destruct (name_eqb (f_name f) o) eqn:E; [|reflexivity]. apply name_eqb_eq in E. cbn. rewrite E, Ho, Hn. reflexivity.
+  - intros g Hg. apply in_map_iff in Hg as [f [E Hf]]. apply in_fs_remove in Hf as [Hf _]. exists f. split; [exact Hf|].
+    destruct (name_eqb (f_name f) o) eqn:En; subst g; [|auto]. apply name_eqb_eq in En. cbn. auto.
+  - intros Hs. unfold sink_files in *. induction fs as [|f t IH]; [reflexivity|]. cbn [filter] in Hs. unfold fs_remove. cbn [filter].
+    destruct (is_foreign (f_name f)) eqn:Ef; cbn [negb] in Hs; [|discriminate].
+    assert (E1 : name_eqb (f_name f) n = false) by (apply name_eqb_neq; intros E; rewrite E in Ef; congruence).
+    assert (E2 : name_eqb (f_name f) o = false) by (apply name_eqb_neq; intros E; rewrite E in Ef; congruence).
+    rewrite E1. cbn [negb map filter]. rewrite E2, Ef. cbn [negb]. apply IH. exact Hs.
+Qed.
+
+Ltac ginv_fields := cbn [files dirmode fopen bw lc clock next_ino acked pruned since_open sout serr
+                         set_files set_fopen set_clock set_pruned ack] in *.
+
+Lemma ginv_clock c dm F0 w k : ginv c dm F0 w -> ginv c dm F0 (set_clock w k).
+Proof. intros [A B C0 E]. constructor; auto. Qed.
+Lemma ginv_ack c dm F0 w id : ginv c dm F0 w -> ginv c dm F0 (ack w id).
+Proof. intros [A B C0 E]. constructor; auto. Qed.
+Lemma ginv_close c dm F0 w : ginv c dm F0 w -> ginv c dm F0 (set_fopen w None).
+Proof.
+  intros [A B C0 E]. constructor; auto.
+  - unfold dir_ok in *. ginv_fields. destruct (dirmode w); [exact B|tauto].
+  - intros i nm H. discriminate.
+Qed.
+Lemma ginv_open c dm F0 w t : ginv c dm F0 w -> ginv c dm F0 (do_open c w t).
+Proof.
+  intros Hg. pose proof Hg as [A B C0 E]. unfold do_open. destruct (fopen w) eqn:Eo; [exact Hg|].
+  assert (Hd : match dirmode w with Some m => Some m | None => Some dirMode end = Some (dir_expected dm)).
+  { unfold dir_ok in B. destruct (dirmode w); [congruence|]. destruct B as [-> _]. reflexivity. }
+  destruct (lookup_name (newFileName c t) (files w)) eqn:El; constructor; ginv_fields.
+  - destruct (N.eqb (cmode c) 0) eqn:Em; [exact A|]. intros g Hg0 Hnf. unfold fs_chmod in Hg0. apply in_map_iff in Hg0 as [f0 [E0 Hf0]].
+    destruct (name_eqb (f_name f0) (newFileName c t)); subst g; [|exact (A f0 Hf0 Hnf)].
+    cbn. unfold eff_mode. rewrite Em. reflexivity.
+  - unfold dir_ok. ginv_fields. rewrite Hd. reflexivity.
+  - intros i nm H. inversion H. reflexivity.
+  - destruct (N.eqb (cmode c) 0); [exact E|]. unfold fs_chmod. rewrite foreign_map; [exact E| |].
+    + intros g Hgf. destruct (name_eqb (f_name g) (newFileName c t)) eqn:En; [|reflexivity]. apply name_eqb_eq in En.
+      rewrite En, newFileName_not_foreign in Hgf. discriminate.
+    + intros g. destruct (name_eqb (f_name g) (newFileName c t)); reflexivity.
+  - intros g Hg0 Hnf. apply in_app_or in Hg0 as [Hg0|[<-|[]]]; [exact (A g Hg0 Hnf)|reflexivity].
+  - unfold dir_ok. ginv_fields. rewrite Hd. reflexivity.
+  - intros i nm H. inversion H. reflexivity.
+  - rewrite foreign_files_app. unfold foreign_files at 2. cbn [filter f_name]. rewrite newFileName_not_foreign, app_nil_r. exact E.
+Qed.
+Lemma ginv_rename c dm F0 w o n fs' : ginv c dm F0 w -> fs_rename o n (files w) = Some fs' -> is_foreign o = false -> is_foreign n = false ->
+  ginv c dm F0 (set_files w fs').
+Proof.
+  intros [A B C0 E] Hr Ho Hn. destruct (fs_rename_props _ _ _ _ Hr Ho Hn) as [P1 [P2 P3]]. constructor; ginv_fields.
+  - intros g Hg Hnf. destruct (P2 g Hg) as [f [Hf [Em [->|[E1 E2]]]]]; [exact (A f Hf Hnf)|].
+    rewrite Em. apply A; [exact Hf|]. rewrite E1. exact Ho.
+  - unfold dir_ok in *. ginv_fields. destruct (dirmode w); [exact B|]. destruct B as [B1 [B2 B3]]. auto.
+  - exact C0.
+  - congruence.
+Qed.
+Lemma ginv_remove_all c dm F0 v : forall w, ginv c dm F0 w -> ginv c dm F0 (remove_all v w).
+Proof.
+  induction v as [|a r IH]; intros w Hg; cbn [remove_all]; [exact Hg|]. apply IH. destruct Hg as [A B C0 E]. constructor; ginv_fields.
+  - intros g Hg Hnf. apply in_fs_remove in Hg as [Hg _]. exact (A g Hg Hnf).
+  - unfold dir_ok in *. ginv_fields. destruct (dirmode w); [exact B|]. destruct B as [B1 [B2 B3]]. conj; auto.
+    unfold sink_files, fs_remove in *. clear - B3. induction (files w) as [|f t IH]; [reflexivity|]. cbn [filter] in *.
+    destruct (is_foreign (f_name f)) eqn:Ef; cbn [negb] in *; [|discriminate].
+    destruct (name_eqb (f_name f) (NStamp a)); cbn [negb filter]; [auto|]. rewrite Ef. cbn [negb]. auto.
+  - exact C0.
+  - rewrite foreign_remove by reflexivity. exact E.
+Qed.
+Lemma ginv_prune c dm F0 w j : ginv c dm F0 w -> ginv c dm F0 (prune_n j c w).
+Proof. intros Hg. unfold prune_n. destruct (special c || N.eqb (maxFiles c) 0); [exact Hg|]. apply ginv_remove_all. exact Hg. Qed.
+Lemma ginv_append c dm F0 w x s b : sinv c w -> ginv c dm F0 w -> ginv c dm F0 (append_chunk w x s b).
+Proof.
+  intros Hi Hg. pose proof Hg as [A B C0 E]. unfold append_chunk. destruct (fopen w) as [[i nm]|] eqn:Eo; [|exact Hg].
+  destruct (i_open _ _ Hi i nm Eo) as [fs' [p [Ef [Hp Hnf]]]].
+  assert (Ea : fs_append i x (files w) = fs' ++ [add_data p x]).
+  { rewrite Ef, <- Hp. apply fs_append_last. apply sorted_inos_last. rewrite <- Ef. exact (i_inos _ _ Hi). }
+  constructor; ginv_fields; rewrite ?Ea.
+  - intros g Hg0 Hn. apply in_app_or in Hg0 as [Hg0|[<-|[]]].
+    + apply A; [rewrite Ef; apply in_or_app; left; exact Hg0|exact Hn].
+    + cbn. apply A; [rewrite Ef; apply in_or_app; right; left; reflexivity|exact Hnf].
+  - unfold dir_ok in *. ginv_fields. destruct (dirmode w); [exact B|]. destruct B as [_ [B2 _]]. congruence.
+  - intros i0 nm0 H0. ginv_fields. apply (C0 i0 nm0). congruence.
+  - rewrite <- E, Ef, !foreign_files_app. unfold foreign_files at 2 4. cbn [filter add_data f_name]. rewrite Hnf. reflexivity.
+Qed.
+Lemma ginv_rotate c dm F0 w t2 t3 t4 : ginv c dm F0 w -> ginv c dm F0 (fst (fst (do_rotate c w t2 t3 t4))).
+Proof.
+  intros Hg. unfold do_rotate. destruct (rotate_due c w t2); [|apply ginv_clock; exact Hg]. destruct (tsOnly c).
+  - destruct (fs_rename NPlain (NStamp t3) _) as [fs'|] eqn:Er; cbn [fst].
+    + apply ginv_open. apply ginv_prune.
+      apply (ginv_rename c dm F0 (set_clock (set_fopen (set_clock w t2) None) t3) NPlain (NStamp t3) fs'); auto.
+      apply ginv_clock, ginv_close, ginv_clock. exact Hg.
+    + apply ginv_clock, ginv_close, ginv_clock. exact Hg.
+  - cbn [fst]. apply ginv_open, ginv_prune, ginv_close, ginv_clock. exact Hg.
+Qed.
+Lemma ginv_reopen c dm F0 w t : ginv c dm F0 w -> ginv c dm F0 (do_reopen c w t).
+Proof. intros Hg. rewrite do_reopen_eq. apply ginv_open, ginv_close. exact Hg. Qed.
+
+Lemma ginv_step c dm F0 w o : sinv c w -> op_incr (clock w) o -> ginv c dm F0 w -> ginv c dm F0 (step c w o).
+Proof.
+  intros Hi Hinc Hg. unfold step. destruct o as [id size t1 t2 t3 t4 t5 flt|t|t|t]; cbn [step3].
+  - destruct (special c) eqn:Hsp; cbn [fst].
+    + apply ginv_clock. unfold std_write. destruct Hg as [A B C0 E]. destruct (path c); constructor; auto.
+    + cbn [op_incr] in Hinc. destruct Hinc as [H1 [H2 [H3 [H4 H5]]]]. unfold do_write.
+      assert (Hi1 : sinv c (do_open c w t1)) by (apply sinv_open; assumption).
+      assert (Hc1 : clock (do_open c w t1) < t2) by (rewrite do_open_clock; destruct (fopen w); lia).
+      pose proof (rotate_spec c _ t2 t3 t4 Hi1 Hc1 H3 H4) as [G1 [_ [_ G4]]].
+      pose proof (ginv_rotate c dm F0 _ t2 t3 t4 (ginv_open c dm F0 w t1 Hg)) as Gr.
+      destruct (do_rotate c (do_open c w t1) t2 t3 t4) as [[w2 ok] rot]. cbn [fst] in *.
+      destruct ok; cbn [negb fst]; [|apply ginv_clock; exact Gr].
+      destruct (first_fails flt); cbn [negb fst].
+      * assert (H3' : sinv c (if leaves_partial flt then append_chunk w2 0%N 0 false else w2) /\
+                      ginv c dm F0 (if leaves_partial flt then append_chunk w2 0%N 0 false else w2) /\
+                      clock (if leaves_partial flt then append_chunk w2 0%N 0 false else w2) = clock w2).
+        { destruct (leaves_partial flt); [|auto]. destruct (append_spec c w2 0%N 0 false G1) as [A1 [_ [_ [A4 _]]]].
+          conj; auto. apply ginv_append; assumption. }
+        destruct H3' as [S3 [G3 C3]]. destruct (reopen_spec c _ t5 S3) as [R1 _]; [lia|].
+        destruct (second_fails flt); cbn [fst]; apply ginv_clock; [apply ginv_reopen; exact G3|].
+        apply ginv_ack. apply ginv_append; [exact R1|apply ginv_reopen; exact G3].
+      * apply ginv_clock, ginv_ack, ginv_append; assumption.
+  - destruct (special c); cbn [fst]; [apply ginv_clock; exact Hg|apply ginv_reopen; exact Hg].
+  - unfold active_file. destruct (fopen w) as [[i nm]|] eqn:Eo; [|apply ginv_clock; exact Hg].
+    destruct (i_open _ _ Hi i nm Eo) as [fs' [p [E [Hp Hnf]]]].
+    assert (Hl : lookup_ino i (files w) = Some p).
+    { rewrite E, <- Hp. apply lookup_ino_last. apply sorted_inos_last. rewrite <- E. exact (i_inos _ _ Hi). }
+    rewrite Hl. destruct (fs_rename (f_name p) (NStamp t) (files w)) as [fs2|] eqn:Er; cbn [fst]; [|apply ginv_clock; exact Hg].
+    apply ginv_clock. apply (ginv_rename c dm F0 w (f_name p) (NStamp t) fs2); auto.
+  - apply ginv_clock. exact Hg.
+Qed.
+
+Lemma ginv_init c fids dm k0 : ginv c dm (mk_foreign 1%N fids) (w_init fids dm k0).
+Proof.
+  destruct (mk_foreign_props 1%N fids) as [A1 _]. unfold w_init.
+  assert (Hall : forall f, In f (mk_foreign 1%N fids) -> is_foreign (f_name f) = true).
+  { intros f Hf. rewrite Forall_forall in A1. apply A1. apply in_map. exact Hf. }
+  clear A1. constructor; ginv_fields.
+  - intros f Hf Hn. rewrite (Hall f Hf) in Hn. discriminate.
+  - unfold dir_ok. ginv_fields. destruct dm; [reflexivity|]. conj; auto.
+    unfold sink_files. induction (mk_foreign 1%N fids) as [|f t IH]; [reflexivity|]. cbn [filter]. rewrite (Hall f (or_introl eq_refl)). cbn [negb].
+    apply IH. intros g Hg. apply Hall. right. exact Hg.
+  - intros i nm H. discriminate.
+  - unfold foreign_files. induction (mk_foreign 1%N fids) as [|f t IH]; [reflexivity|]. cbn [filter]. rewrite (Hall f (or_introl eq_refl)).
+    f_equal. apply IH. intros g Hg. apply Hall. right. exact Hg.
+Qed.
+
+Lemma run_from_ginv c dm F0 ops : special c = false -> forall w, sinv c w -> ginv c dm F0 w -> clock_ok (clock w) ops ->
+  ginv c dm F0 (run_from c w ops).
+Proof.
+  intros Hsp. induction ops as [|o r IH]; intros w Hi Hg Hc; cbn [run_from fold_left]; [exact Hg|].
+  cbn [clock_ok] in Hc. destruct Hc as [Hc1 Hc2]. destruct (step_spec c w o Hsp Hi Hc1) as [S1 [S2 _]].
+  apply IH; [exact S1|apply ginv_step; assumption|rewrite S2; exact Hc2].
+Qed.
